@@ -70,6 +70,16 @@ func forallIn[T any](s []T, lo, hi int, f func(k int, e T) bool) bool {
 	return true
 }
 
+// forallStr is forallIn over the bytes of a string.
+func forallStr(s string, lo, hi int, f func(k int, e byte) bool) bool {
+	for k := lo; k < hi; k++ {
+		if !f(k, s[k]) {
+			return false
+		}
+	}
+	return true
+}
+
 func existsIn[T any](s []T, lo, hi int, f func(k int, e T) bool) bool {
 	for k := lo; k < hi; k++ {
 		if f(k, s[k]) {
@@ -83,6 +93,7 @@ func existsIn[T any](s []T, lo, hi int, f func(k int, e T) bool) bool {
 func modifiesTail(s any)  {} // the spare capacity s[len(s):cap(s)]
 func modifiesElems(s any) {} // the elements s[0:len(s)]
 func modifiesPtr(p any)   {} // the cell *p
+func modifiesMap(m any)   {} // the entries of map m
 func modifiesAll()        {} // anything
 
 func freshSlice(s any) bool { return true } // s's backing array was allocated by this call
@@ -108,4 +119,4 @@ func bytesEq[A, B ~[]byte | ~string](a A, b B) bool { return string(a) == string
 // loopIndex names the hidden index of the innermost enclosing range loop in loop invariants.
 var loopIndex int
 
-var _ = []any{requires, ensures, ensuresGoal, assert, assume, imp, iff, forall, exists, modifiesTail, modifiesElems, modifiesPtr, modifiesAll, freshSlice, sameBase, sameArray, disjointFromTail, suffixOf, viewOf, offsetIn, loopIndex}
+var _ = []any{requires, ensures, ensuresGoal, assert, assume, imp, iff, forall, exists, modifiesTail, modifiesElems, modifiesPtr, modifiesMap, modifiesAll, freshSlice, sameBase, sameArray, disjointFromTail, suffixOf, viewOf, offsetIn, loopIndex}
